@@ -1,6 +1,942 @@
-//! C13 — monitor not written yet.
-use crate::ctx::Ctx;
+//! C13 — range constraints accept exactly values in [0, 2^63) linked to the message.
+//!
+//! Four observation points: the result of the library's range prover on boundary / random i64
+//! inputs; `verify_range_constraint` on honest constraints under every mismatch of link,
+//! parameters and challenge; `verify_range_constraint` on attacker-assembled constraints (shadow
+//! prover, digit count L and radix U read from the observed layout) — none may verify while the
+//! value the harness placed in the linked slot is outside [0, 2^63); and
+//! `RangeConstraintParameters::validate` against "every i-th signature verifies on digit i".
+//! Every verifier call is also compared with the reference evaluation on the wire atoms.
+
+use crate::ctx::{hex, Ctx};
+use crate::fixtures::{self, Merchant};
+use crate::props::util::class_i64;
+use crate::refs::*;
+use crate::shadow::{RangeProver, Resp, Schnorr};
+use crate::tracer::{trace, Trace};
+use crate::wire::{dec, rand_g1};
+use bls12_381::{G1Projective, G2Projective, Scalar};
+use ff::Field;
+use group::Curve;
+use rand_chacha::ChaCha20Rng;
+use rand_core::RngCore;
+use serde_json::{json, Value};
+use zkchannels_crypto::{
+    pedersen::PedersenParameters,
+    pointcheval_sanders::KeyPair,
+    proofs::{
+        verif_hooks, Challenge, ChallengeBuilder, CommitmentProof, CommitmentProofBuilder, RangeConstraint, RangeConstraintBuilder,
+        RangeConstraintParameters, SignatureProofBuilder, SignatureRequestProofBuilder,
+    },
+    Message,
+};
+
+type R = ChaCha20Rng;
+
+const TWO63: u128 = 1u128 << 63;
+
+/// Observed layout of range constraints and parameters.
+struct Layout {
+    /// number of digit proofs in an honest constraint
+    l: usize,
+    /// number of published digit signatures
+    u: u64,
+    /// U^L
+    cap: u128,
+    /// traced honest constraint, used as the byte template of assembled ones
+    template: Trace,
+}
+
+fn count_digits(t: &Trace) -> usize {
+    let mut n = 0;
+    while !t.by_fpath(&format!("digit_proofs/[{}]/blinded_signature/sigma1", n)).is_empty() {
+        n += 1;
+    }
+    n
+}
+
+fn layout(m: &'static Merchant, seed: u64) -> Result<Layout, String> {
+    let mut rng = Ctx::fixture_rng(seed, &format!("c13/template/{}", m.label));
+    let rp = m.ccfg.range_constraint_parameters();
+    let b = RangeConstraintBuilder::generate_constraint_commitments(1, rp, &mut rng).map_err(|_| "C13: the range prover refused the value 1 (no template)".to_string())?;
+    let ch = ChallengeBuilder::new().with(&b).finish();
+    let rc = b.generate_constraint_response(ch);
+    let template = trace(&rc)?;
+    let l = count_digits(&template);
+    let u = m.digit_sigs.len() as u64;
+    if l == 0 || u < 2 {
+        return Err(format!("C13: implausible observed layout L={} U={}", l, u));
+    }
+    let cap = (u as u128).checked_pow(l as u32).ok_or("C13: U^L does not fit 128 bits")?;
+    Ok(Layout { l, u, cap, template })
+}
+
+// ------------------------------------------------------------------------------------------
+// reference evaluation of a range constraint from its wire atoms
+
+struct RangeRef {
+    digits_ok: bool,
+    first_bad: Option<String>,
+    sum: Scalar,
+}
+
+fn range_ref(pk: &PkAtoms, t: &Trace, radix: u64, c: &Scalar) -> Result<RangeRef, String> {
+    let mut out = RangeRef { digits_ok: true, first_bad: None, sum: Scalar::zero() };
+    let mut pw = Scalar::one();
+    let l = count_digits(t);
+    if l == 0 {
+        return Err("range_ref: no digit proofs in the traced constraint".into());
+    }
+    for j in 0..l {
+        let p = format!("digit_proofs/[{}]", j);
+        let s1 = g1(&t.fget(&format!("{}/blinded_signature/sigma1", p))?).ok_or("range_ref: sigma1")?;
+        let s2 = g1(&t.fget(&format!("{}/blinded_signature/sigma2", p))?).ok_or("range_ref: sigma2")?;
+        let com = g2(&t.fget(&format!("{}/commitment_proof/commitment", p))?).ok_or("range_ref: commitment")?;
+        let tt = g2(&t.fget(&format!("{}/commitment_proof/scalar_commitment", p))?).ok_or("range_ref: scalar commitment")?;
+        let bf = sc(&t.fget(&format!("{}/commitment_proof/blinding_factor_response_scalar", p))?).ok_or("range_ref: bf response")?;
+        let mut rs = vec![];
+        loop {
+            let path = format!("{}/commitment_proof/message_response_scalars/[{}]", p, rs.len());
+            if t.by_fpath(&path).is_empty() {
+                break;
+            }
+            rs.push(sc(&t.fget(&path)?).ok_or("range_ref: response scalar")?);
+        }
+        if rs.len() != 1 {
+            return Err(format!("range_ref: digit proof {} has {} response scalars", j, rs.len()));
+        }
+        let (wf, sch, link) = sigproof_ref(pk, &s1, &s2, &com, &tt, c, &bf, &rs);
+        if !(wf && sch && link) && out.digits_ok {
+            out.digits_ok = false;
+            out.first_bad = Some(format!("digit {}: well-formed={} schnorr={} pairing-link={}", j, wf, sch, link));
+        }
+        out.sum += pw * rs[0];
+        pw *= Scalar::from(radix);
+    }
+    Ok(out)
+}
+
+fn scalar_u128(x: u128) -> Scalar {
+    Scalar::from_raw([x as u64, (x >> 64) as u64, 0, 0])
+}
+
+/// is the scalar the encoding of an integer in [0, 2^63)? (read from its bytes)
+fn in_range(v: &Scalar) -> bool {
+    let b = v.to_bytes();
+    b[8..].iter().all(|x| *x == 0) && b[7] & 0x80 == 0
+}
+
+fn value_class(v: &Scalar) -> String {
+    let b = v.to_bytes();
+    if b[16..].iter().all(|x| *x == 0) {
+        let mut lo = [0u8; 16];
+        lo.copy_from_slice(&b[..16]);
+        let x = u128::from_le_bytes(lo);
+        return match x {
+            0 => "0".into(),
+            1 => "1".into(),
+            x if x == TWO63 - 1 => "2^63-1".into(),
+            x if x == TWO63 => "2^63".into(),
+            x if x == TWO63 + 1 => "2^63+1".into(),
+            x if x == (1u128 << 64) - 1 => "2^64-1".into(),
+            x if x < TWO63 => "in-range".into(),
+            _ => ">2^63".into(),
+        };
+    }
+    let n = -*v;
+    if n == Scalar::one() {
+        "q-1".into()
+    } else if n == scalar_u128(TWO63) {
+        "q-2^63".into()
+    } else {
+        "large".into()
+    }
+}
+
+// ------------------------------------------------------------------------------------------
+// part A/B: the library's prover and honest constraints
+
+#[derive(Debug, Clone, Copy, PartialEq, Eq)]
+enum Ty {
+    ComG1,
+    ComG2,
+    Sig,
+    Req,
+}
+
+impl Ty {
+    const ALL: [Ty; 4] = [Ty::ComG1, Ty::ComG2, Ty::Sig, Ty::Req];
+    /// for case names
+    fn tag(self) -> &'static str {
+        match self {
+            Ty::ComG1 => "ComG1",
+            Ty::ComG2 => "ComG2",
+            Ty::Sig => "Sig",
+            Ty::Req => "Req",
+        }
+    }
+    fn short(self) -> &'static str {
+        match self {
+            Ty::ComG1 => "CommitmentProof<G1>",
+            Ty::ComG2 => "CommitmentProof<G2>",
+            Ty::Sig => "SignatureProof",
+            Ty::Req => "SignatureRequestProof",
+        }
+    }
+}
+
+struct Linked<const N: usize> {
+    ch: Challenge,
+    rc: RangeConstraint,
+    rs: [Scalar; N],
+    proof_ok: bool,
+}
+
+/// the library's prover for the linked proof and the constraint, one challenge for both
+fn link_and_answer<const N: usize>(ty: Ty, rng: &mut R, msg: [Scalar; N], cs: &[Option<Scalar>; N], rb: RangeConstraintBuilder, rp: &RangeConstraintParameters, salt: &[u8]) -> Linked<N> {
+    let m = Message::new(msg);
+    match ty {
+        Ty::ComG1 => {
+            let pp = PedersenParameters::<G1Projective, N>::new(rng);
+            let b = CommitmentProofBuilder::generate_proof_commitments(rng, m, cs, &pp);
+            let ch = ChallengeBuilder::new().with(&rb).with(&b).with(rp).with_bytes(salt).finish();
+            let p = b.generate_proof_response(ch);
+            Linked { ch, rc: rb.generate_constraint_response(ch), rs: *p.conjunction_response_scalars(), proof_ok: p.verify_knowledge_of_opening(&pp, ch) }
+        }
+        Ty::ComG2 => {
+            let pp = PedersenParameters::<G2Projective, N>::new(rng);
+            let b = CommitmentProofBuilder::generate_proof_commitments(rng, m, cs, &pp);
+            let ch = ChallengeBuilder::new().with(&rb).with(&b).with(rp).with_bytes(salt).finish();
+            let p = b.generate_proof_response(ch);
+            Linked { ch, rc: rb.generate_constraint_response(ch), rs: *p.conjunction_response_scalars(), proof_ok: p.verify_knowledge_of_opening(&pp, ch) }
+        }
+        Ty::Sig => {
+            let kp = KeyPair::<N>::new(rng);
+            let sig = m.sign(rng, &kp);
+            let b = SignatureProofBuilder::generate_proof_commitments(rng, m, sig, cs, kp.public_key());
+            let ch = ChallengeBuilder::new().with(&rb).with(&b).with(rp).with_bytes(salt).finish();
+            let p = b.generate_proof_response(ch);
+            Linked { ch, rc: rb.generate_constraint_response(ch), rs: *p.conjunction_response_scalars(), proof_ok: p.verify_knowledge_of_signature(kp.public_key(), ch) }
+        }
+        Ty::Req => {
+            let kp = KeyPair::<N>::new(rng);
+            let b = SignatureRequestProofBuilder::generate_proof_commitments(rng, m, cs, kp.public_key());
+            let ch = ChallengeBuilder::new().with(&rb).with(&b).with(rp).with_bytes(salt).finish();
+            let p = b.generate_proof_response(ch);
+            Linked { ch, rc: rb.generate_constraint_response(ch), rs: *p.conjunction_response_scalars(), proof_ok: p.verify_knowledge_of_opening(kp.public_key(), ch).is_some() }
+        }
+    }
+}
+
+/// one comparison of the verifier with (a) what the property says for an honest constraint and
+/// (b) the reference evaluation
+fn observe_honest(c: &mut Ctx, ctx_sig: &str, class: &str, lib: bool, expected: bool, reference: bool, detail: &Value) {
+    c.eval();
+    c.count(&format!("{}[{}]", if lib { "verified" } else { "rejected" }, class), 1);
+    if lib != expected {
+        let what = if expected { "C13 honest-constraint-rejected" } else { "C13 honest-constraint-verifies-under-mismatch" };
+        c.violation(&format!("{} check={} {}", what, class, ctx_sig), detail.clone());
+    }
+    if lib != reference {
+        c.violation(
+            &format!("C13 verifier-differs-from-reference verifier={} reference={} check={} {}", lib, reference, class, ctx_sig),
+            detail.clone(),
+        );
+    }
+}
+
+fn honest_case<const N: usize>(c: &mut Ctx, m: &'static Merchant, other: &'static Merchant, lay: &Layout, ty: Ty, vname: &str, v: i64, pos_seed: usize) {
+    let pos = pos_seed % N;
+    let name = format!("honest/{}/v={}/N={}/pos={}", ty.tag(), vname, N, pos);
+    c.case(&name, |c| {
+        let mut rng = c.rng(&name);
+        let rp = m.ccfg.range_constraint_parameters();
+        let vclass = if vname.starts_with("random") { "random".to_string() } else { vname.to_string() };
+        // A. the prover accepts every value in [0, 2^63)
+        c.eval();
+        let rb = match RangeConstraintBuilder::generate_constraint_commitments(v, rp, &mut rng) {
+            Ok(rb) => {
+                c.count("prover_accepted[non-negative]", 1);
+                rb
+            }
+            Err(_) => {
+                c.count("prover_refused[non-negative]", 1);
+                c.violation(&format!("C13 prover-refused-in-range-value value={}", vclass), json!({"value": v.to_string()}));
+                return;
+            }
+        };
+        // B. linked to slot `pos` of a proof of this type
+        let mut msg = [Scalar::zero(); N];
+        for (i, x) in msg.iter_mut().enumerate() {
+            *x = match (i + pos_seed) % 4 {
+                0 => Scalar::random(&mut rng),
+                1 => Scalar::zero(),
+                2 => Scalar::from(v as u64) + Scalar::one(),
+                _ => q_minus_1(),
+            };
+        }
+        msg[pos] = Scalar::from(v as u64);
+        let mut cs = [None; N];
+        cs[pos] = Some(rb.commitment_scalar());
+        let lk = link_and_answer::<N>(ty, &mut rng, msg, &cs, rb, rp, name.as_bytes());
+        let cval = lk.ch.to_scalar();
+        let t = match trace(&lk.rc) {
+            Ok(t) => t,
+            Err(e) => return c.inconclusive(&e),
+        };
+        let sig = format!("link={} N={} value={}", ty.short(), N, vclass);
+        let detail = json!({"value": v.to_string(), "slot": pos, "challenge": hex(&cval.to_bytes()), "constraint": hex(&t.bytes),
+            "responses": lk.rs.iter().map(|s| hex(&s.to_bytes())).collect::<Vec<_>>()});
+        if !lk.proof_ok {
+            // completeness of the linked proof is C10's subject; here it only prevents observation
+            return c.inconclusive("C13: the linked proof itself did not verify — cannot observe the link");
+        }
+        let base = match range_ref(&m.range_pk, &t, lay.u, &cval) {
+            Ok(r) => r,
+            Err(e) => return c.inconclusive(&e),
+        };
+        c.distinct(&format!("honest/{}/N={}/pos={}/{}", ty.tag(), N, pos, vname));
+        // same parameters, same challenge, linked slot
+        let lib = lk.rc.verify_range_constraint(rp, lk.ch, lk.rs[pos]);
+        observe_honest(c, &sig, "linked-slot", lib, true, base.digits_ok && base.sum == lk.rs[pos], &detail);
+        if !lib {
+            return;
+        }
+        // every other slot (sampled for long tuples)
+        let others: Vec<usize> = if N <= 5 || c.tier.pick(false, true) {
+            (0..N).filter(|i| *i != pos).collect()
+        } else {
+            let mut v: Vec<usize> = vec![(pos + 1) % N, (pos + N - 1) % N, (pos + N / 2) % N];
+            v.sort();
+            v.dedup();
+            v.retain(|i| *i != pos);
+            v
+        };
+        for i in others {
+            let lib = lk.rc.verify_range_constraint(rp, lk.ch, lk.rs[i]);
+            c.distinct(&format!("honest/{}/N={}/pos={}/{}/other-slot{}", ty.tag(), N, pos, vname, i));
+            observe_honest(c, &sig, "other-slot", lib, false, base.digits_ok && base.sum == lk.rs[i], &detail);
+        }
+        // a neighbouring response scalar, and the plain value instead of the response
+        for (what, x) in [("response+1", lk.rs[pos] + Scalar::one()), ("value-instead-of-response", Scalar::from(v as u64)), ("zero", Scalar::zero())] {
+            if x == lk.rs[pos] {
+                continue;
+            }
+            let lib = lk.rc.verify_range_constraint(rp, lk.ch, x);
+            observe_honest(c, &sig, what, lib, false, base.digits_ok && base.sum == x, &detail);
+        }
+        // other parameters
+        {
+            let rp2 = other.ccfg.range_constraint_parameters();
+            let lib = lk.rc.verify_range_constraint(rp2, lk.ch, lk.rs[pos]);
+            match range_ref(&other.range_pk, &t, other.digit_sigs.len() as u64, &cval) {
+                Ok(r) => observe_honest(c, &sig, "other-parameters", lib, false, r.digits_ok && r.sum == lk.rs[pos], &detail),
+                Err(e) => c.inconclusive(&e),
+            }
+        }
+        // other challenge
+        {
+            let ch2 = ChallengeBuilder::new().with(&lk.rc).with_bytes(b"another challenge").finish();
+            if ch2.to_scalar() == cval {
+                c.inconclusive("C13: could not produce a different challenge");
+            } else {
+                let lib = lk.rc.verify_range_constraint(rp, ch2, lk.rs[pos]);
+                match range_ref(&m.range_pk, &t, lay.u, &ch2.to_scalar()) {
+                    Ok(r) => observe_honest(c, &sig, "other-challenge", lib, false, r.digits_ok && r.sum == lk.rs[pos], &detail),
+                    Err(e) => c.inconclusive(&e),
+                }
+            }
+        }
+        if v == i64::MAX || v == 0 {
+            c.sample(json!({"kind": "honest", "link": ty.short(), "N": N, "slot": pos, "value": v.to_string(), "digits": lay.l, "radix": lay.u}));
+        }
+        verif_hooks::clear();
+    });
+}
+
+fn honest_dispatch(c: &mut Ctx, m: &'static Merchant, other: &'static Merchant, lay: &Layout, n: usize, ty: Ty, vname: &str, v: i64, pos_seed: usize) {
+    match n {
+        1 => honest_case::<1>(c, m, other, lay, ty, vname, v, pos_seed),
+        2 => honest_case::<2>(c, m, other, lay, ty, vname, v, pos_seed),
+        3 => honest_case::<3>(c, m, other, lay, ty, vname, v, pos_seed),
+        5 => honest_case::<5>(c, m, other, lay, ty, vname, v, pos_seed),
+        8 => honest_case::<8>(c, m, other, lay, ty, vname, v, pos_seed),
+        _ => honest_case::<13>(c, m, other, lay, ty, vname, v, pos_seed),
+    }
+}
+
+fn non_negative_values(c: &Ctx) -> Vec<(String, i64)> {
+    let mut v: Vec<(String, i64)> = vec![("0".into(), 0), ("1".into(), 1), ("127".into(), 127), ("128".into(), 128)];
+    for k in 1..=8u32 {
+        let p = 128i64.pow(k);
+        if k > 1 {
+            v.push((format!("128^{}-1", k), p - 1));
+            v.push((format!("128^{}", k), p));
+        }
+        v.push((format!("128^{}+1", k), p + 1));
+    }
+    v.push(("2^62".into(), 1 << 62));
+    v.push(("2^63-2".into(), i64::MAX - 1));
+    v.push(("2^63-1".into(), i64::MAX));
+    let mut rng = c.rng("non-negative-values");
+    for k in 0..c.tier.pick(8usize, 120) {
+        let bits = 1 + (rng.next_u32() % 63);
+        v.push((format!("random{}", k), ((rng.next_u64() >> (64 - bits)) as i64) & i64::MAX));
+    }
+    v
+}
+
+fn negative_cases(c: &mut Ctx, m: &'static Merchant) {
+    let mut vals: Vec<i64> = vec![i64::MIN, i64::MIN + 1, -(1 << 62), -(1 << 62) - 1, -1, -2, -127, -128, -129];
+    for k in 1..=8u32 {
+        let p = 128i64.pow(k);
+        vals.extend([-p, -p - 1, -p + 1]);
+    }
+    vals.push(-i64::MAX);
+    let nrand = c.tier.pick(200usize, 5000);
+    let mut rng = c.rng("negative-values");
+    for _ in 0..nrand {
+        let bits = 1 + (rng.next_u32() % 63);
+        let x = (rng.next_u64() >> (64 - bits)) as i64 & i64::MAX;
+        vals.push(-x - 1);
+    }
+    let chunk = 64usize;
+    for (ci, vs) in vals.chunks(chunk).enumerate() {
+        let name = format!("prover/negative/{}", ci);
+        c.case(&name, |c| {
+            let mut rng = c.rng(&name);
+            let rp = m.ccfg.range_constraint_parameters();
+            for v in vs {
+                c.eval();
+                c.distinct(&format!("prover/negative/{}", v));
+                match RangeConstraintBuilder::generate_constraint_commitments(*v, rp, &mut rng) {
+                    Err(e) => {
+                        c.count("prover_refused[negative]", 1);
+                        if e.0 != *v {
+                            c.count("refusal_reports_another_value", 1);
+                        }
+                    }
+                    Ok(_) => {
+                        c.count("prover_accepted[negative]", 1);
+                        c.violation(&format!("C13 prover-accepted-negative-value value={}", class_i64(*v)), json!({"value": v.to_string()}));
+                    }
+                }
+            }
+            // positive twin in the same case: the neighbours on the other side of zero
+            for v in [0i64, 1, i64::MAX] {
+                c.eval();
+                match RangeConstraintBuilder::generate_constraint_commitments(v, rp, &mut rng) {
+                    Ok(_) => c.count("prover_accepted[non-negative]", 1),
+                    Err(_) => {
+                        c.count("prover_refused[non-negative]", 1);
+                        c.violation(&format!("C13 prover-refused-in-range-value value={}", class_i64(v)), json!({"value": v.to_string()}));
+                    }
+                }
+            }
+            verif_hooks::clear();
+        });
+    }
+}
+
+// ------------------------------------------------------------------------------------------
+// part C: attacker-assembled constraints
+
+#[derive(Debug, Clone)]
+struct Plan {
+    /// family (stable; goes into signatures and counters)
+    family: String,
+    /// variant inside the family (e.g. digit position), for case names
+    variant: String,
+    digits: Vec<Scalar>,
+    sig_idx: Vec<usize>,
+    /// the value placed in the linked slot
+    v: Scalar,
+    /// a positive control: the reference must accept it
+    control: bool,
+}
+
+fn digits_of(lay: &Layout, x: u128) -> (Vec<Scalar>, Vec<usize>) {
+    let mut x = x;
+    let mut ds = vec![];
+    let mut idx = vec![];
+    for _ in 0..lay.l {
+        let d = (x % lay.u as u128) as u64;
+        ds.push(Scalar::from(d));
+        idx.push(d as usize);
+        x /= lay.u as u128;
+    }
+    (ds, idx)
+}
+
+fn plans(c: &Ctx, lay: &Layout) -> Vec<Plan> {
+    let mut rng = c.rng("forger-plans");
+    let u = lay.u as u128;
+    let l = lay.l;
+    let cap = lay.cap;
+    let top_in = cap.min(TWO63) - 1; // largest in-range value the layout can represent
+    let mut v: Vec<Plan> = vec![];
+    let mut push = |family: &str, variant: String, d: (Vec<Scalar>, Vec<usize>), val: Scalar, control: bool| {
+        v.push(Plan { family: family.into(), variant, digits: d.0, sig_idx: d.1, v: val, control });
+    };
+    let all_max = (vec![Scalar::from(lay.u - 1); l], vec![(lay.u - 1) as usize; l]);
+    // controls: honest decompositions assembled by the shadow prover
+    let mut in_vals: Vec<u128> = vec![0, 1, top_in, top_in / 2 + 7];
+    for _ in 0..c.tier.pick(2usize, 30) {
+        in_vals.push((rng.next_u64() as u128) % (top_in + 1));
+    }
+    for (k, x) in in_vals.iter().enumerate() {
+        push("honest-digits", format!("{}", k), digits_of(lay, *x), scalar_u128(*x), true);
+    }
+    // all-maximal digits represent U^L - 1
+    push("all-max-digits/linked-to-U^L-1", "0".into(), all_max.clone(), scalar_u128(cap - 1), cap - 1 < TWO63);
+    if cap > TWO63 {
+        // the layout can represent values beyond the range: present them exactly
+        for (k, x) in [TWO63, TWO63 + 1, cap - 1, (TWO63 + cap) / 2].into_iter().enumerate() {
+            push("exact-digits-of-out-of-range-value", format!("{}", k), digits_of(lay, x), scalar_u128(x), false);
+        }
+    }
+    // out-of-range values with best-effort digits
+    let outs: Vec<(&str, Scalar, Option<u128>, Option<u128>)> = vec![
+        // (name, scalar, as non-negative integer, as magnitude of a negative integer)
+        ("2^63", scalar_u128(TWO63), Some(TWO63), None),
+        ("2^63+1", scalar_u128(TWO63 + 1), Some(TWO63 + 1), None),
+        ("2^64-1", scalar_u128((1 << 64) - 1), Some((1 << 64) - 1), None),
+        ("U^L", scalar_u128(cap), Some(cap), None),
+        ("q-1", -Scalar::one(), None, Some(1)),
+        ("q-2^63", -scalar_u128(TWO63), None, Some(TWO63)),
+        ("q-2^63+1", -scalar_u128(TWO63 - 1), None, Some(TWO63 - 1)),
+    ];
+    for (name, s, pos_int, neg_mag) in outs {
+        if in_range(&s) || (name == "U^L" && cap == TWO63) {
+            continue;
+        }
+        let residue = match (pos_int, neg_mag) {
+            (Some(x), _) => x % cap,
+            (_, Some(k)) => (cap - (k % cap)) % cap,
+            _ => 0,
+        };
+        push("out-of-range/residue-digits", name.into(), digits_of(lay, residue), s, false);
+        push("out-of-range/all-max-digits", name.into(), all_max.clone(), s, false);
+        if let Some(x) = pos_int {
+            // exact representation with a top digit outside the alphabet, under a published signature
+            let low = x % (cap / u);
+            let top = x / (cap / u);
+            let (mut d, mut i) = digits_of(lay, low);
+            d[l - 1] = scalar_u128(top);
+            let mut cands = vec![(top % u) as usize, (lay.u - 1) as usize];
+            cands.dedup();
+            for cand in cands {
+                i[l - 1] = cand;
+                push("out-of-range/top-digit-outside-alphabet", format!("{}/sig{}", name, cand), (d.clone(), i.clone()), s, false);
+            }
+        }
+        if let Some(k) = neg_mag {
+            // exact representation with a negative lowest digit
+            let (mut d, mut i) = digits_of(lay, 0);
+            d[0] = -scalar_u128(k);
+            let mut cands = vec![(k % u) as usize, 0usize];
+            cands.dedup();
+            for cand in cands {
+                i[0] = cand;
+                push("out-of-range/negative-digit", format!("{}/sig{}", name, cand), (d.clone(), i.clone()), s, false);
+            }
+            // -k = (U^L - k) - U^L: residue digits with the top digit lowered by U
+            let (mut d, i) = digits_of(lay, residue);
+            d[l - 1] -= Scalar::from(lay.u);
+            push("out-of-range/top-digit-lowered-by-U", name.into(), (d, i), s, false);
+        }
+    }
+    // forgeries around in-range values: the value is fine, the constraint is not
+    let mut bases: Vec<u128> = vec![(127 * u + 5) % (top_in + 1), top_in - 3, (1u128 << 62).min(top_in) / 3 * 2 + 12345];
+    for _ in 0..c.tier.pick(1usize, 12) {
+        bases.push((rng.next_u64() as u128) % (top_in + 1));
+    }
+    for (bi, x) in bases.iter().enumerate() {
+        let (d, i) = digits_of(lay, *x);
+        // swapped digits
+        let mut pair = None;
+        'find: for a in 0..l {
+            for b in (a + 1..l).rev() {
+                if i[a] != i[b] {
+                    pair = Some((a, b));
+                    break 'find;
+                }
+            }
+        }
+        if let Some((a, b)) = pair {
+            let (mut d2, mut i2) = (d.clone(), i.clone());
+            d2.swap(a, b);
+            i2.swap(a, b);
+            let mut x2: u128 = 0;
+            for j in (0..l).rev() {
+                x2 = x2 * u + i2[j] as u128;
+            }
+            push("swapped-digits/linked-to-original", format!("b{}", bi), (d2.clone(), i2.clone()), scalar_u128(*x), false);
+            if x2 < TWO63 {
+                push("swapped-digits/linked-to-swapped(twin)", format!("b{}", bi), (d2, i2), scalar_u128(x2), true);
+            }
+        }
+        // a published signature claimed for another digit value, at each digit position
+        let positions: Vec<usize> = if c.tier.pick(true, false) { vec![0, l / 2, l - 1] } else { (0..l).collect() };
+        for j in positions {
+            let mut i2 = i.clone();
+            i2[j] = (i[j] + 1 + (rng.next_u32() as usize) % (lay.u as usize - 1)) % lay.u as usize;
+            push("signature-of-another-digit", format!("b{}/digit{}", bi, j), (d.clone(), i2), scalar_u128(*x), false);
+        }
+        // digits of another value
+        for (k, x2) in [(*x + 1) % (top_in + 1), (*x + u.pow((l / 2) as u32)) % (top_in + 1), top_in - *x].into_iter().enumerate() {
+            if x2 != *x {
+                push("digits-of-another-value", format!("b{}/{}", bi, k), digits_of(lay, x2), scalar_u128(*x), false);
+            }
+        }
+        // same value, a digit outside the alphabet compensated in the next position
+        if i[1] >= 1 {
+            let (mut d2, i2) = (d.clone(), i.clone());
+            d2[0] += Scalar::from(lay.u);
+            d2[1] -= Scalar::one();
+            push("digit-outside-alphabet-compensated", format!("b{}", bi), (d2, i2), scalar_u128(*x), false);
+        }
+    }
+    v
+}
+
+fn fill_range(tr: &mut Trace, rp: &RangeProver, c: &Scalar) -> Result<(), String> {
+    for (j, d) in rp.digits.iter().enumerate() {
+        d.fill(tr, &format!("digit_proofs/[{}]", j), &d.sch.respond(c))?;
+    }
+    if !tr.by_fpath(&format!("digit_proofs/[{}]/blinded_signature/sigma1", rp.digits.len())).is_empty() {
+        return Err("C13: the template constraint has more digits than the forger".into());
+    }
+    Ok(())
+}
+
+fn fill_cp(tr: &mut Trace, com: &[u8], t: &[u8], r: &Resp) -> Result<(), String> {
+    tr.fset("commitment", com)?;
+    tr.fset("scalar_commitment", t)?;
+    tr.fset("blinding_factor_response_scalar", &r.bf.to_bytes())?;
+    for (i, s) in r.msg.iter().enumerate() {
+        tr.fset(&format!("message_response_scalars/[{}]", i), &s.to_bytes())?;
+    }
+    Ok(())
+}
+
+fn forge_case<const N: usize>(c: &mut Ctx, m: &'static Merchant, lay: &Layout, p: &Plan, idx: usize) {
+    let pos = idx % N;
+    let name = format!("forger/{}/{}/N={}/pos={}", p.family, p.variant, N, pos);
+    c.case(&name, |c| {
+        let mut rng = c.rng(&name);
+        let rparams = m.ccfg.range_constraint_parameters();
+        let vclass = value_class(&p.v);
+        let sig = format!("forger={} value={}", p.family, vclass);
+        // commitment phase of the constraint
+        let rp = RangeProver::commit(&mut rng, m, &p.digits, &p.sig_idx);
+        // the linked commitment proof over generators the harness chooses
+        let h: G1Projective = rand_g1(&mut rng).into();
+        let gs: Vec<G1Projective> = (0..N).map(|_| rand_g1(&mut rng).into()).collect();
+        let mut msg: Vec<Scalar> = (0..N).map(|_| Scalar::random(&mut rng)).collect();
+        msg[pos] = p.v;
+        let mut cs: Vec<Option<Scalar>> = vec![None; N];
+        cs[pos] = Some(rp.commitment_scalar());
+        let link = Schnorr::commit(&mut rng, h, gs.clone(), msg, &cs);
+        // first messages -> draft -> challenge -> responses
+        let mut tr = lay.template.clone();
+        if let Err(e) = fill_range(&mut tr, &rp, &Scalar::zero()) {
+            return c.inconclusive(&e);
+        }
+        let draft: RangeConstraint = match dec(&tr.bytes) {
+            Ok(d) => d,
+            Err(e) => return c.inconclusive(&format!("C13: draft constraint does not decode: {}", e)),
+        };
+        let ch = ChallengeBuilder::new().with(&draft).with(rparams).with_bytes(link.com_bytes()).with_bytes(link.t_bytes()).finish();
+        let cval = ch.to_scalar();
+        let mut tr = lay.template.clone();
+        if let Err(e) = fill_range(&mut tr, &rp, &cval) {
+            return c.inconclusive(&e);
+        }
+        let rc: RangeConstraint = match dec(&tr.bytes) {
+            Ok(d) => d,
+            Err(e) => return c.inconclusive(&format!("C13: assembled constraint does not decode: {}", e)),
+        };
+        let ch2 = ChallengeBuilder::new().with(&rc).with(rparams).with_bytes(link.com_bytes()).with_bytes(link.t_bytes()).finish();
+        if ch2.to_scalar() != cval {
+            return c.inconclusive("C13: challenge moved between draft and final constraint (responses are hashed?)");
+        }
+        let resp = link.respond(&cval);
+        // the link itself must be a proof the library accepts for these generators
+        {
+            let mut arr = [G1Projective::identity(); N];
+            arr.copy_from_slice(&gs);
+            let pp = PedersenParameters::<G1Projective, N>::from_generators(h, arr);
+            let tb = CommitmentProofBuilder::generate_proof_commitments(&mut rng, Message::new([Scalar::zero(); N]), &[None; N], &pp);
+            let tmpl = tb.generate_proof_response(ch);
+            let mut lt = match trace(&tmpl) {
+                Ok(t) => t,
+                Err(e) => return c.inconclusive(&e),
+            };
+            if let Err(e) = fill_cp(&mut lt, &link.com_bytes(), &link.t_bytes(), &resp) {
+                return c.inconclusive(&e);
+            }
+            let ok = match dec::<CommitmentProof<G1Projective, N>>(&lt.bytes) {
+                Ok(lp) => lp.verify_knowledge_of_opening(&pp, ch) && lp.conjunction_response_scalars()[pos] == resp.msg[pos],
+                Err(e) => return c.inconclusive(&format!("C13: assembled link proof does not decode: {}", e)),
+            };
+            if !ok {
+                return c.inconclusive("C13: the shadow prover's link proof is not accepted by the library — cannot observe");
+            }
+            c.count("link_proofs_accepted", 1);
+        }
+        let expected = resp.msg[pos];
+        let lib = rc.verify_range_constraint(rparams, ch, expected);
+        let rf = match range_ref(&m.range_pk, &tr, lay.u, &cval) {
+            Ok(r) => r,
+            Err(e) => return c.inconclusive(&e),
+        };
+        let reference = rf.digits_ok && rf.sum == expected;
+        let inr = in_range(&p.v);
+        c.eval();
+        c.distinct(&format!("forger/{}/{}/N={}/pos={}/{}", p.family, p.variant, N, pos, vclass));
+        c.count(&format!("{}[forger:{}]", if lib { "verified" } else { "rejected" }, p.family), 1);
+        c.count(if inr { "linked_value_in_range" } else { "linked_value_out_of_range" }, 1);
+        let detail = json!({"forger": p.family, "variant": p.variant, "linked_value": hex(&p.v.to_bytes()), "linked_value_in_range": inr,
+            "digit_scalars": p.digits.iter().map(|d| hex(&d.to_bytes())).collect::<Vec<_>>(), "presented_signatures": p.sig_idx,
+            "represented_value": hex(&rp.represented().to_bytes()), "observed_digits": lay.l, "observed_radix": lay.u,
+            "challenge": hex(&cval.to_bytes()), "constraint": hex(&tr.bytes), "expected_response_scalar": hex(&expected.to_bytes()),
+            "reference": {"digit_proofs_ok": rf.digits_ok, "first_failing": rf.first_bad, "sum_matches": rf.sum == expected}});
+        if lib && !inr {
+            c.violation(&format!("C13 constraint-verifies-for-out-of-range-value {}", sig), detail.clone());
+        }
+        if lib != reference {
+            c.violation(&format!("C13 verifier-differs-from-reference verifier={} reference={} {}", lib, reference, sig), detail.clone());
+        }
+        if p.control {
+            if lib {
+                c.count("forger_positive_controls_verified", 1);
+            } else if !reference {
+                c.inconclusive(&format!("C13: positive control of the shadow prover ({}) is rejected by verifier and reference — cannot observe", p.family));
+            }
+        }
+        if p.family.starts_with("out-of-range/") && (vclass == "2^63" || vclass == "q-1") {
+            c.sample(json!({"kind": "forger", "forger": p.family, "variant": p.variant, "linked_value": vclass, "verified": lib, "reference": reference, "first_failing": rf.first_bad}));
+        }
+        verif_hooks::clear();
+    });
+}
+
+fn forge_dispatch(c: &mut Ctx, m: &'static Merchant, lay: &Layout, p: &Plan, idx: usize, n: usize) {
+    match n {
+        1 => forge_case::<1>(c, m, lay, p, idx),
+        2 => forge_case::<2>(c, m, lay, p, idx),
+        3 => forge_case::<3>(c, m, lay, p, idx),
+        _ => forge_case::<5>(c, m, lay, p, idx),
+    }
+}
+
+// ------------------------------------------------------------------------------------------
+// part D: RangeConstraintParameters::validate
+
+fn validate_ref(t: &Trace) -> Result<(bool, Option<usize>), String> {
+    let pk = PkAtoms::from_trace(t, "public_key")?;
+    let mut i = 0usize;
+    let mut first_bad = None;
+    loop {
+        let a = t.by_fpath(&format!("digit_signatures/[{}]/sigma1", i));
+        if a.is_empty() {
+            break;
+        }
+        let s1 = g1(&t.fget(&format!("digit_signatures/[{}]/sigma1", i))?).ok_or("validate_ref: sigma1")?;
+        let s2 = g1(&t.fget(&format!("digit_signatures/[{}]/sigma2", i))?).ok_or("validate_ref: sigma2")?;
+        if !ps_verify_ref(&pk, &s1, &s2, &[Scalar::from(i as u64)]) && first_bad.is_none() {
+            first_bad = Some(i);
+        }
+        i += 1;
+    }
+    if i == 0 {
+        return Err("validate_ref: no digit signatures in the traced parameters".into());
+    }
+    Ok((first_bad.is_none(), first_bad))
+}
+
+fn validate_one(c: &mut Ctx, name: &str, class: &str, label: &str, tr: &Trace, intended: Option<bool>) {
+    c.case(name, |c| {
+        let p2: RangeConstraintParameters = match dec(&tr.bytes) {
+            Ok(p) => p,
+            Err(_) => {
+                c.count(&format!("parameters_not_decodable[{}]", class), 1);
+                return;
+            }
+        };
+        let lib = p2.validate().is_ok();
+        let (orc, first_bad) = match validate_ref(tr) {
+            Ok(x) => x,
+            Err(e) => return c.inconclusive(&e),
+        };
+        if let Some(i) = intended {
+            if i != orc {
+                return c.inconclusive(&format!("C13: substitution {} did not have the intended effect on the reference (reference says {})", label, orc));
+            }
+        }
+        c.eval();
+        c.distinct(&format!("validate/{}", label));
+        c.count(&format!("validate_{}[{}]", if lib { "ok" } else { "err" }, class), 1);
+        if lib != orc {
+            c.violation(
+                &format!("C13 validate-differs-from-reference validate={} reference={} substitution={}", if lib { "Ok" } else { "Err" }, orc, label),
+                json!({"substitution": label, "reference_first_failing_digit": first_bad, "parameters_public_key": hex(&tr.bytes[tr.bytes.len().saturating_sub(48 * 2 + 96 * 3)..])}),
+            );
+        }
+        verif_hooks::clear();
+    });
+}
+
+fn validate_cases(c: &mut Ctx, m: &'static Merchant) {
+    let rp = m.ccfg.range_constraint_parameters();
+    let t = match trace(rp) {
+        Ok(t) => t,
+        Err(e) => return c.inconclusive(&e),
+    };
+    let u = m.digit_sigs.len();
+    validate_one(c, "validate/honest", "honest", "none(honest)", &t, Some(true));
+    let positions: Vec<usize> = if c.tier.pick(true, false) {
+        let mut v = vec![0, 1, 2, 7, 8, 31, 32, 50, 63, 64, 65, 100, 120, u.saturating_sub(3), u.saturating_sub(2), u - 1];
+        v.retain(|p| *p < u);
+        v.sort();
+        v.dedup();
+        v
+    } else {
+        (0..u).collect()
+    };
+    for pos in positions {
+        let mut rng = c.rng(&format!("validate/{}", pos));
+        let p1 = format!("digit_signatures/[{}]/sigma1", pos);
+        let p2 = format!("digit_signatures/[{}]/sigma2", pos);
+        // another digit's signature
+        {
+            let j = (pos + 1 + (rng.next_u32() as usize) % (u - 1)) % u;
+            let mut tr = t.clone();
+            let r = tr.fset(&p1, &m.digit_sigs[j].0.to_compressed()).and_then(|_| tr.fset(&p2, &m.digit_sigs[j].1.to_compressed()));
+            match r {
+                Ok(()) => validate_one(c, &format!("validate/pos{}/other-digit", pos), "other-digit-signature", &format!("position={}:signature-of-another-digit", pos), &tr, Some(false)),
+                Err(e) => c.inconclusive(&e),
+            }
+        }
+        // a random pair
+        {
+            let mut tr = t.clone();
+            let r = tr.fset(&p1, &rand_g1(&mut rng).to_compressed()).and_then(|_| tr.fset(&p2, &rand_g1(&mut rng).to_compressed()));
+            match r {
+                Ok(()) => validate_one(c, &format!("validate/pos{}/random-pair", pos), "random-pair", &format!("position={}:random-pair", pos), &tr, Some(false)),
+                Err(e) => c.inconclusive(&e),
+            }
+        }
+        // the same signature re-randomised: still valid
+        {
+            let r = Scalar::random(&mut rng);
+            let s1 = (G1Projective::from(m.digit_sigs[pos].0) * r).to_affine();
+            let s2 = (G1Projective::from(m.digit_sigs[pos].1) * r).to_affine();
+            let mut tr = t.clone();
+            let r = tr.fset(&p1, &s1.to_compressed()).and_then(|_| tr.fset(&p2, &s2.to_compressed()));
+            match r {
+                Ok(()) => validate_one(c, &format!("validate/pos{}/rerandomised", pos), "rerandomised-valid", &format!("position={}:rerandomised-valid", pos), &tr, Some(true)),
+                Err(e) => c.inconclusive(&e),
+            }
+        }
+    }
+    // a few more single substitutions: second half only, two positions exchanged, key atoms
+    let mut rng = c.rng("validate/extra");
+    {
+        let mut tr = t.clone();
+        match tr.fset("digit_signatures/[3]/sigma2", &rand_g1(&mut rng).to_compressed()) {
+            Ok(()) => validate_one(c, "validate/extra/sigma2-only", "sigma2-only-replaced", "position=3:sigma2-only-random", &tr, Some(false)),
+            Err(e) => c.inconclusive(&e),
+        }
+        let mut tr = t.clone();
+        let (a, b) = (u / 2, u / 2 + 1);
+        let r = tr
+            .fset(&format!("digit_signatures/[{}]/sigma1", a), &m.digit_sigs[b].0.to_compressed())
+            .and_then(|_| tr.fset(&format!("digit_signatures/[{}]/sigma2", a), &m.digit_sigs[b].1.to_compressed()))
+            .and_then(|_| tr.fset(&format!("digit_signatures/[{}]/sigma1", b), &m.digit_sigs[a].0.to_compressed()))
+            .and_then(|_| tr.fset(&format!("digit_signatures/[{}]/sigma2", b), &m.digit_sigs[a].1.to_compressed()));
+        match r {
+            Ok(()) => validate_one(c, "validate/extra/exchanged", "two-positions-exchanged", "positions-exchanged", &tr, Some(false)),
+            Err(e) => c.inconclusive(&e),
+        }
+    }
+    for (path, relevant) in [("public_key/x2", true), ("public_key/g2", true), ("public_key/y2s/[0]", true), ("public_key/g1", false), ("public_key/y1s/[0]", false)] {
+        let mut tr = t.clone();
+        let a = match tr.fone(path) {
+            Ok(a) => a.clone(),
+            Err(e) => {
+                c.inconclusive(&e);
+                continue;
+            }
+        };
+        let Some(alt) = crate::wire::alt_valid(a.kind, tr.atom_bytes(&a), &mut rng) else { continue };
+        tr.bytes = t.with_replaced(&a, &alt);
+        // the G1 half of the key plays no part in signature verification
+        validate_one(c, &format!("validate/key/{}", path), if relevant { "key-atom(G2 half)" } else { "key-atom(G1 half)" }, &format!("key:{}", path), &tr, Some(!relevant));
+    }
+}
+
+// ------------------------------------------------------------------------------------------
+
+const NS: [usize; 6] = [1, 2, 3, 5, 8, 13];
 
 pub fn run(c: &mut Ctx) {
-    c.inconclusive("C13: monitor not written yet");
+    c.note(
+        "rule",
+        json!("prover: negative boundary values {MIN, MIN+1, -2^62, -128^k, -128^k+-1, -1, ...} and random negatives must be refused, non-negative boundary values {0,1,127,128,128^k+-1,2^62,2^63-2,2^63-1} and random ones accepted. honest: each accepted value linked to a slot of CommitmentProof<G1/G2> / SignatureProof / SignatureRequestProof (N and slot rotating; all N in thorough) and verified with the linked slot (must verify), every other slot, response+1, the plain value, zero, another merchant's parameters, another challenge (must not). forger: shadow-prover constraints with digit count L and radix U read from the observed layout: honest digits and all-max digits (controls), exact digits of out-of-range values if U^L > 2^63, values 2^63, 2^63+1, 2^64-1, U^L, q-1, q-2^63 with residue / all-max / top-digit-outside-alphabet / negative-digit / lowered-top-digit strategies, swapped digits, a published signature claimed for another digit at each position, digits of another value, compensated out-of-alphabet digit; the challenge is the library's over the assembled constraint. validate: one signature replaced by another digit's, a random pair, a re-randomised valid one at 16 (quick) / all 128 positions, plus key atoms. Distinct = distinct (part, link type or forger family, N, slot, value or position, check)."),
+    );
+    let m = match fixtures::merchant(c.seed, "m0") {
+        Ok(m) => m,
+        Err(e) => return c.inconclusive(&e),
+    };
+    let other = match fixtures::merchant(c.seed, "m1") {
+        Ok(m) => m,
+        Err(e) => return c.inconclusive(&e),
+    };
+    let lay = match layout(m, c.seed) {
+        Ok(l) => l,
+        Err(e) => return c.inconclusive(&e),
+    };
+    verif_hooks::clear();
+    c.note("observed_layout", json!({"digits_L": lay.l, "radix_U": lay.u, "U^L": lay.cap.to_string(), "U^L<=2^63": lay.cap <= TWO63}));
+
+    // A: negatives
+    negative_cases(c, m);
+
+    // A+B: non-negative values through the prover, linked, verified under every mismatch
+    let values = non_negative_values(c);
+    let thorough = c.tier.pick(false, true);
+    for (vi, (vname, v)) in values.iter().enumerate() {
+        for (ti, ty) in Ty::ALL.into_iter().enumerate() {
+            if thorough {
+                for (ni, n) in NS.into_iter().enumerate() {
+                    honest_dispatch(c, m, other, &lay, n, ty, vname, *v, vi + ti + ni);
+                }
+            } else {
+                // two tuple lengths per (value, link type), rotating over all six
+                for k in 0..2usize {
+                    let n = NS[(vi + ti + 3 * k) % 6];
+                    honest_dispatch(c, m, other, &lay, n, ty, vname, *v, vi * 3 + ti + 7 * k);
+                }
+            }
+        }
+    }
+
+    // C: attacker-assembled constraints
+    let ps = plans(c, &lay);
+    let shapes: &[usize] = if thorough { &[1, 2, 3, 5] } else { &[0, 9] };
+    for (pi, p) in ps.iter().enumerate() {
+        for s in shapes {
+            let n = match *s {
+                0 => [1usize, 2, 3, 5][pi % 4],
+                9 => [3usize, 5, 1, 2][pi % 4],
+                x => x,
+            };
+            forge_dispatch(c, m, &lay, p, pi, n);
+        }
+    }
+
+    // D: parameter validation
+    validate_cases(c, m);
 }
